@@ -81,6 +81,12 @@ def parse_then_sec(b):
     return p.sec(len(b) == 33)
 
 
+def parse_coords(b):
+    """coordinates of the point a SEC string decodes to (a rejected string raises)"""
+    p = S256Point.parse(b)
+    return p.x.num, p.y.num
+
+
 def sec_then_parse(pub, compressed):
     q = S256Point.parse(pub.sec(compressed))
     return q.x.num, q.y.num
